@@ -94,7 +94,8 @@ type Rule struct {
 	ErrLine int    `json:"errline"`
 	Nodes   []Node `json:"nodes"`
 	NG      bool   `json:"ng"` // first rule of its group
-	GN      string `json:"gn"` // the group it belongs to: name|interval|limit|query_offset
+	GN      string `json:"gn"` // the group it belongs to: name|interval|query_offset
+	GL      int    `json:"gl"` // ... and its limit
 }
 
 type Group struct {
@@ -245,12 +246,14 @@ func ProjectRule(r parser.Rule, lines []string) Rule {
 var (
 	once    sync.Once
 	strictP parser.Parser
+	thanosP parser.Parser
 	relaxP  parser.Parser
 )
 
 func parsers() {
 	once.Do(func() {
 		strictP = parser.NewParser(true, parser.PrometheusSchema, model.UTF8Validation)
+		thanosP = parser.NewParser(true, parser.ThanosSchema, model.UTF8Validation)
 		relaxP = parser.NewParser(false, parser.PrometheusSchema, model.UTF8Validation)
 	})
 }
@@ -260,6 +263,11 @@ func Parse(lines []string, strict bool) (f File) { return ParseEOL(lines, strict
 
 // ParseEOL: crlf = the file is written with CR LF line endings.
 func ParseEOL(lines []string, strict, crlf bool) (f File) {
+	return ParseWith(lines, strict, crlf, false)
+}
+
+// ParseWith: thanos = strict mode uses the Thanos rule schema (relaxed mode has no schema).
+func ParseWith(lines []string, strict, crlf, thanos bool) (f File) {
 	parsers()
 	defer func() {
 		if r := recover(); r != nil {
@@ -271,6 +279,9 @@ func ParseEOL(lines []string, strict, crlf bool) (f File) {
 	p := relaxP
 	if strict {
 		p = strictP
+		if thanos {
+			p = thanosP
+		}
 	}
 	pf := p.Parse(strings.NewReader(ContentEOL(lines, crlf)))
 	lines = Phys(lines, crlf)
@@ -288,7 +299,8 @@ func ParseEOL(lines []string, strict, crlf bool) (f File) {
 		for ri, r := range g.Rules {
 			pr := ProjectRule(r, lines)
 			pr.NG = ri == 0
-			pr.GN = fmt.Sprintf("%s|%s|%d|%s", g.Name, g.Interval, g.Limit, g.QueryOffset)
+			pr.GN = fmt.Sprintf("%s|%s|%s", g.Name, g.Interval, g.QueryOffset)
+			pr.GL = g.Limit
 			pg.Rules = append(pg.Rules, pr)
 		}
 		f.Groups = append(f.Groups, pg)
